@@ -36,6 +36,7 @@ def cases(draw):
     c = draw(pairs.setups())
     c["vm"] = draw(st.sampled_from([False, True, True]))
     c["Nthermo"] = draw(st.integers(1, 2))
+    c["regen"] = draw(st.booleans())   # reach the range through generate() from a calculator built with range 1 (history of public calls)
     return c
 
 
@@ -154,7 +155,13 @@ def check(case):
             else:
                 from onsager import OnsagerCalc
                 T = pg.reachable(jumps, nth, False)
-                vm = _calculator(OnsagerCalc)(crys, chem, sl, jn, nth)
+                if case.get("regen") and nth == 2:
+                    # the documented way to change the range of an existing calculator; the lists below must be those of the new range
+                    vm = _calculator(OnsagerCalc)(crys, chem, sl, jn, 1)
+                    vm.generate(nth)
+                    classes.append("vm_range_reached_by_generate")
+                else:
+                    vm = _calculator(OnsagerCalc)(crys, chem, sl, jn, nth)
                 tk, kk = keyset(vm.thermo), keyset(vm.kinetic)
                 require(set(tk) == T and len(tk) == len(T), lambda: "VacancyMediated(Nthermo=%d): thermodynamic states differ from the brute-force set (%d vs %d)" % (nth, len(tk), len(T)))
                 require(set(kk) == K and len(kk) == len(K), lambda: "VacancyMediated(Nthermo=%d): kinetic states differ from the brute-force set with origin states (%d vs %d)" % (nth, len(kk), len(K)))
